@@ -179,7 +179,9 @@ func (r *replicateChannelManager) startReadCollectionForKafka(ctx context.Contex
 	_, ok := r.replicateCollections[info.ID]
 	r.collectionLock.RUnlock()
 	if ok {
-		return nil, errors.Newf("the collection has been replicated, wait it [collection name: %s] to drop...", info.Schema.Name)
+		// the same collection id is being replicated, it's a repeated notification
+		log.Info("the collection is already replicated", zap.String("collection_name", info.Schema.GetName()), zap.Int64("collection_id", info.ID))
+		return nil, nil
 	}
 
 	// send api event when the collection is not replicated and ctx is not done
@@ -219,23 +221,27 @@ func (r *replicateChannelManager) startReadCollectionForKafka(ctx context.Contex
 
 func (r *replicateChannelManager) startReadCollectionForMilvus(ctx context.Context, info *pb.CollectionInfo, sourceDBInfo *model.DatabaseInfo) (*model.CollectionInfo, error) {
 	var err error
+	isReplicating := false
 	retryErr := retry.Do(ctx, func() error {
 		_, err = r.targetClient.GetCollectionInfo(ctx, info.Schema.GetName(), sourceDBInfo.Name)
 		if err != nil && !IsCollectionNotFoundError(err) && !IsDatabaseNotFoundError(err) {
 			return err
 		}
 		r.collectionLock.RLock()
-		_, ok := r.replicateCollections[info.ID]
+		_, isReplicating = r.replicateCollections[info.ID]
 		r.collectionLock.RUnlock()
-		if ok {
-			return errors.Newf("the collection has been replicated, wait it [collection name: %s] to drop...", info.Schema.Name)
-		}
 		// collection not found will exit the retry
 		return nil
 	}, r.startReadRetryOptions...)
 
 	if retryErr != nil {
 		return nil, retryErr
+	}
+	if isReplicating {
+		// the same collection id is being replicated (a concurrent repeated notification), waiting can't help
+		// because a collection id is never reused
+		log.Info("the collection is already replicated", zap.String("collection_name", info.Schema.GetName()), zap.Int64("collection_id", info.ID))
+		return nil, nil
 	}
 
 	if err != nil {
